@@ -901,9 +901,9 @@ def filter_kwargs(_function, *args, **kwargs):
     if has_kwargs(_function):
         return _function(*args, **kwargs)
 
-    # Get the list of function arguments
-    func_code = _function.__code__
-    function_args = func_code.co_varnames[: func_code.co_argcount]
+    # Get the list of function arguments (via the signature, so that
+    # decorated functions such as deprecated ones report their real arguments)
+    function_args = list(inspect.signature(_function).parameters)
     # Construct a dict of those kwargs which appear in the function
     filtered_kwargs = {}
     for kwarg, value in list(kwargs.items()):
